@@ -41,6 +41,10 @@ pub struct PlanSpec {
     pub frac_pm: u16,
     pub m: u8,
     pub timeout_us: u32,
+    /// for the read-side classes (open-read, mmap): instead of pausing, fail the call with
+    /// 1 EMFILE, 2 ENOMEM, 3 EIO (0 = no fault)
+    #[serde(default)]
+    pub fail: u8,
 }
 
 #[derive(Clone, Debug, Serialize, Deserialize)]
@@ -71,8 +75,9 @@ pub fn plan_strategy(max_role: u8) -> BoxedStrategy<Vec<PlanSpec>> {
             1u16..999,
             1u8..5,
             200u32..4000,
+            prop_oneof![3 => Just(0u8), 1 => 1u8..4],
         )
-            .prop_map(|(role, class, nth, split, frac_pm, m, timeout_us)| PlanSpec {
+            .prop_map(|(role, class, nth, split, frac_pm, m, timeout_us, fail)| PlanSpec {
                 role,
                 class,
                 nth,
@@ -80,6 +85,7 @@ pub fn plan_strategy(max_role: u8) -> BoxedStrategy<Vec<PlanSpec>> {
                 frac_pm,
                 m,
                 timeout_us,
+                fail,
             }),
         0..5,
     )
@@ -154,6 +160,9 @@ pub fn conc_value(thread: usize, idx: usize, class: u8, x: u16) -> (u64, Vec<u8>
     }
     (id, v)
 }
+
+/// operations that returned an error because a planned read fault was injected into them
+static FAULTED_OPS: AtomicU64 = AtomicU64::new(0);
 
 #[derive(Clone, Debug)]
 pub struct Event {
@@ -244,9 +253,11 @@ fn exec(c: &ConcCase, env: &Env) -> Outcome {
             frac_pm: p.frac_pm as u32,
             m: p.m as u32,
             timeout_us: p.timeout_us as u64,
+            fail_errno: match p.fail { 1 => libc::EMFILE, 2 => libc::ENOMEM, 3 => libc::EIO, _ => 0 },
         })
         .collect();
     shim::plan_install(plan);
+    FAULTED_OPS.store(0, SeqCst);
 
     let clock = Arc::new(AtomicU64::new(0));
     let stop = Arc::new(AtomicBool::new(false));
@@ -288,6 +299,7 @@ fn exec(c: &ConcCase, env: &Env) -> Outcome {
                         let (id, v) = conc_value(t, i, *cl, *x);
                         let kb = Bytes::from(keys[ki].clone());
                         let hh = h.clone();
+                        shim::fault_flag_reset();
                         let inv = clock.fetch_add(1, SeqCst);
                         let r = catch(move || hh.set(kb, Bytes::from(v)).map(|_| LKind::Set(id)).map_err(|e| e.to_string()));
                         let resp = clock.fetch_add(1, SeqCst);
@@ -300,6 +312,7 @@ fn exec(c: &ConcCase, env: &Env) -> Outcome {
                         let hh = h.clone();
                         let exp = expected.clone();
                         let corrupt2 = corrupt.clone();
+                        shim::fault_flag_reset();
                         let inv = clock.fetch_add(1, SeqCst);
                         let r = catch(move || {
                             hh.get(kb)
@@ -326,6 +339,7 @@ fn exec(c: &ConcCase, env: &Env) -> Outcome {
                         let ki = key_index[pick(*k, n)];
                         let kb = Bytes::from(keys[ki].clone());
                         let hh = h.clone();
+                        shim::fault_flag_reset();
                         let inv = clock.fetch_add(1, SeqCst);
                         let r = catch(move || hh.del(kb).map(LKind::Del).map_err(|e| e.to_string()));
                         let resp = clock.fetch_add(1, SeqCst);
@@ -363,9 +377,13 @@ fn exec(c: &ConcCase, env: &Env) -> Outcome {
                     break;
                 }
                 let hh = h.clone();
+                shim::fault_flag_reset();
                 match catch(move || hh.verif_merge().map_err(|e| e.to_string())) {
                     Ok(Ok(())) => {
                         merges_done.fetch_add(1, SeqCst);
+                    }
+                    Ok(Err(_)) if shim::fault_flag() => {
+                        FAULTED_OPS.fetch_add(1, SeqCst);
                     }
                     Ok(Err(e)) => errors.lock().unwrap().push(format!("merge returned an error: {}", e)),
                     Err(p) => {
@@ -401,6 +419,11 @@ fn exec(c: &ConcCase, env: &Env) -> Outcome {
     out.count("operations", events_v.len() as u64);
     out.count("merges-completed", merges_done.load(SeqCst));
     out.count("perturbations-fired", fired as u64);
+    let faulted = FAULTED_OPS.load(SeqCst);
+    out.count("ops-failed-by-injected-read-fault", faulted);
+    if faulted > 0 {
+        out.label("read-fault-injected");
+    }
     if fired > 0 {
         out.label("perturbation-fired");
     }
@@ -488,7 +511,14 @@ fn record(
             key,
             op: LOp { inv, resp, kind, who },
         }),
-        Ok(Err(e)) => errors.lock().unwrap().push(format!("{} by thread {} (op {}) failed: {}", what, who.0, who.1, e)),
+        Ok(Err(e)) => {
+            // an error is expected exactly when a planned read fault hit a call of this operation
+            if shim::fault_flag() {
+                FAULTED_OPS.fetch_add(1, SeqCst);
+            } else {
+                errors.lock().unwrap().push(format!("{} by thread {} (op {}) failed: {}", what, who.0, who.1, e));
+            }
+        }
         Err(p) => panics.lock().unwrap().push(format!("{} by thread {} (op {}): {}", what, who.0, who.1, p)),
     }
 }
@@ -497,7 +527,7 @@ pub fn prop() -> Prop<ConcCase> {
     Prop {
         id: "C04",
         level: "exploration",
-        rule: "Cases: 2-4 client threads with generated programs (4-16 ops quick / up to 30 thorough over set/get/del on 2-4 shared keys; values unique per (thread,index) in three size classes: small, page crossing, above the 8 KiB write buffer), one merging thread calling verif_merge 0-3 times, a generated store configuration (small max_file_size, reader pool 1-4, reader cache 0-256) and a generated perturbation plan for the LD_PRELOAD shim: at the n-th write-data/write-hint/create/unlink/open-read/mmap/fsync call of a given thread, park that thread until the others completed m ops (or a timeout), or split that write into two real writes and park in between. Oracle: no panic (catch_unwind), no Err, every read value is byte-identical to a written one, each key's history (invocation/response stamped by one atomic counter) is accepted by a Wing-Gong linearizability checker for a register with delete, the reader pool is full at quiescence, no thread hangs. Non-trivial: at least one pair of operations from different threads on the same key overlaps in real time and at least one planned perturbation fired; distinct = distinct hash of the whole case.",
+        rule: "Cases: 2-4 client threads with generated programs (4-16 ops quick / up to 30 thorough over set/get/del on 2-4 shared keys; values unique per (thread,index) in three size classes: small, page crossing, above the 8 KiB write buffer), one merging thread calling verif_merge 0-3 times, a generated store configuration (small max_file_size, reader pool 1-4, reader cache 0-256) and a generated perturbation plan for the LD_PRELOAD shim: at the n-th write-data/write-hint/create/unlink/open-read/mmap/fsync call of a given thread, park that thread until the others completed m ops (or a timeout), or split that write into two real writes and park in between, or make that open-for-read / mmap call fail once with EMFILE/ENOMEM/EIO. Oracle: no panic (catch_unwind), no Err except from an operation into which a read fault was injected, every read value is byte-identical to a written one, each key's history (invocation/response stamped by one atomic counter) is accepted by a Wing-Gong linearizability checker for a register with delete, the reader pool is full at quiescence, no thread hangs. Non-trivial: at least one pair of operations from different threads on the same key overlaps in real time and at least one planned perturbation fired; distinct = distinct hash of the whole case.",
         assumptions: &[
             "schedules are sampled, not enumerated: the harness owns preemption only at tracked file-system calls (pause/split plans), everything else is the OS scheduler's choice",
             "a watchdog expiry counts as a violation only as 'hang' of threads inside store operations (20 s for at most 120 tiny operations)",
